@@ -98,7 +98,7 @@ def run_exchange(case):
         W.listen_ca(cb, 'B')
         W.run(0.01)
         sim.at(t0, lambda: W.call('send', ca.send_pgn, case['dp'], case['pf'], ps, case['prio'], list(pay)))
-        dur = npk * (iv_bam + 0.012) + 3
+        dur = npk * (iv_bam + 0.012 + (case.get('dt_interval') or 0)) + 3
     W.run(t0 + dur)
     sn = SN.sniff(layer, W.bus.frames)
     expect_failure = bool(case.get('late_after_hold'))
